@@ -237,8 +237,16 @@ def loop_guards(P, reach, res):
     loop_guards_ok = True
     tl = token_loops(P, reach)
     res.floor("LOOP-GUARD", "token loops in parser functions", len(tl), 15)
+    memo = {}
     for f, h, body in tl:
         g = loop_guard(P, f, h, body)
+        if g == "pop":
+            # an unconditional pop is a guarantee only if nothing in the loop can un-consume: a body that can reach
+            # parse_symbol (whose unpops are unpaired at end of file) needs an index or result test of its own
+            callees = {M.callee_name(f.blocks[b]["term"]) for b in body if f.blocks[b]["term"]["t"] == "call"}
+            reaches = any(c in P.funcs and _may_reach(P, c, lambda p: p == "parser::parse_symbol", memo) for c in callees if c)
+            if reaches:
+                g = None
         key = "%s # loop@%s" % (f.path, g or "unguarded")
         if g:
             res.ok("LOOP-GUARD", "%s: %s" % (f.path, g))
